@@ -69,7 +69,7 @@ impl Compiler {
                     .into());
                 }
             } else {
-                let jump_dist = (self.current_offset() - loop_start + 1) as i16;
+                let jump_dist = self.jump_dist((self.current_offset() - loop_start + 1) as isize);
                 self.emit_b(OpCode::Jump, 0, -jump_dist, span);
             }
             Ok(())
